@@ -27,7 +27,7 @@ type Entry struct {
 type Sim struct {
 	T *Tape
 
-	mu     sync.Mutex
+	mu     quietMutex
 	parked []*Entry
 	seq    int
 	wake   chan struct{}
@@ -59,6 +59,22 @@ type Sim struct {
 	Quiesce func()
 }
 
+// quietMutex is a mutex whose acquire/release are hidden from the race
+// detector (see race_on.go).
+type quietMutex struct{ mu sync.Mutex }
+
+func (m *quietMutex) Lock() {
+	raceOff()
+	m.mu.Lock()
+	raceOn()
+}
+
+func (m *quietMutex) Unlock() {
+	raceOff()
+	m.mu.Unlock()
+	raceOn()
+}
+
 // NewSim must be called inside the bubble.
 func NewSim(t *Tape) *Sim {
 	return &Sim{
@@ -75,23 +91,36 @@ func NewSim(t *Tape) *Sim {
 
 // Lock/Unlock expose the simulator mutex to the transport (one lock guards
 // scheduler and transport state; ready predicates run with it held).
-func (s *Sim) Lock()   { s.mu.Lock() }
+//
+//go:norace
+func (s *Sim) Lock() { s.mu.Lock() }
+
+//go:norace
 func (s *Sim) Unlock() { s.mu.Unlock() }
 
+//go:norace
 func (s *Sim) kick() {
+	raceOff()
 	select {
 	case s.wake <- struct{}{}:
 	default:
 	}
+	raceOn()
 }
 
 // Kick wakes the scheduler (state changed without a park).
+//
+//go:norace
 func (s *Sim) Kick() { s.kick() }
 
 // Now is the simulated time since the start of the run.
+//
+//go:norace
 func (s *Sim) Now() time.Duration { return time.Since(s.Start) }
 
 // Step is the number of scheduler steps taken so far.
+//
+//go:norace
 func (s *Sim) Step() int {
 	s.mu.Lock()
 	defer s.mu.Unlock()
@@ -99,6 +128,8 @@ func (s *Sim) Step() int {
 }
 
 // Count increments a reach/fault counter. Never draws.
+//
+//go:norace
 func (s *Sim) Count(k string) {
 	s.mu.Lock()
 	s.Stats[k]++
@@ -106,8 +137,11 @@ func (s *Sim) Count(k string) {
 }
 
 // CountLocked is Count for callers that hold the lock.
+//
+//go:norace
 func (s *Sim) CountLocked(k string) { s.Stats[k]++ }
 
+//go:norace
 func (s *Sim) logLocked(line string) {
 	s.h.Write([]byte(line))
 	s.h.Write([]byte{'\n'})
@@ -118,6 +152,8 @@ func (s *Sim) logLocked(line string) {
 
 // Logf appends a line to the global event log (hashed). Only call from the
 // goroutine that was released last (so the order is the scheduler's order).
+//
+//go:norace
 func (s *Sim) Logf(format string, a ...any) {
 	line := fmt.Sprintf(format, a...)
 	s.mu.Lock()
@@ -127,6 +163,8 @@ func (s *Sim) Logf(format string, a ...any) {
 
 // ALog appends to a per-actor log; actor logs are hashed at the end in name
 // order, so they do not depend on runtime wake-up order.
+//
+//go:norace
 func (s *Sim) ALog(actor, format string, a ...any) {
 	line := fmt.Sprintf(format, a...)
 	s.mu.Lock()
@@ -138,6 +176,8 @@ func (s *Sim) ALog(actor, format string, a ...any) {
 }
 
 // Hash finalises and returns the event-log hash.
+//
+//go:norace
 func (s *Sim) Hash() string {
 	s.mu.Lock()
 	defer s.mu.Unlock()
@@ -160,6 +200,8 @@ func (s *Sim) Hash() string {
 // 0) or somebody cancels the entry (returns the cancel code, never 0).
 // prep, if non-nil, runs with the lock held right after registration and
 // receives the entry (so that the transport can remember it for cancellation).
+//
+//go:norace
 func (s *Sim) ParkE(id string, ready func() bool, prep func(*Entry)) int {
 	s.mu.Lock()
 	if s.draining {
@@ -174,14 +216,21 @@ func (s *Sim) ParkE(id string, ready func() bool, prep func(*Entry)) int {
 	}
 	s.mu.Unlock()
 	s.kick()
-	return <-e.ch
+	raceOff()
+	code := <-e.ch
+	raceOn()
+	return code
 }
 
 // Park is ParkE without readiness predicate or cancellation.
+//
+//go:norace
 func (s *Sim) Park(id string) { s.ParkE(id, nil, nil) }
 
 // CancelLocked removes a parked entry and wakes its goroutine with code.
 // Caller holds the lock. Returns false if the entry was already released.
+//
+//go:norace
 func (s *Sim) CancelLocked(e *Entry, code int) bool {
 	if e == nil || !e.in {
 		return false
@@ -193,34 +242,45 @@ func (s *Sim) CancelLocked(e *Entry, code int) bool {
 		}
 	}
 	e.in = false
+	raceOff()
 	e.ch <- code
+	raceOn()
 	s.kick()
 	return true
 }
 
 // Go starts an actor goroutine. The run ends when all actors have returned.
+//
+//go:norace
 func (s *Sim) Go(name string, f func()) {
 	s.mu.Lock()
 	s.live++
 	s.mu.Unlock()
 	go func() {
 		defer func() {
-			if r := recover(); r != nil {
-				s.mu.Lock()
-				s.Panics = append(s.Panics, fmt.Sprintf("actor %s: %v\n%s", name, r, debug.Stack()))
-				s.mu.Unlock()
-			}
-			s.mu.Lock()
-			s.live--
-			s.mu.Unlock()
-			s.kick()
+			s.actorDone(name, recover())
 		}()
 		s.Park("a." + name + ".start")
 		f()
 	}()
 }
 
+//go:norace
+func (s *Sim) actorDone(name string, r any) {
+	if r != nil {
+		s.mu.Lock()
+		s.Panics = append(s.Panics, fmt.Sprintf("actor %s: %v\n%s", name, r, debug.Stack()))
+		s.mu.Unlock()
+	}
+	s.mu.Lock()
+	s.live--
+	s.mu.Unlock()
+	s.kick()
+}
+
 // Live returns the number of actors still running.
+//
+//go:norace
 func (s *Sim) Live() int {
 	s.mu.Lock()
 	defer s.mu.Unlock()
@@ -228,6 +288,8 @@ func (s *Sim) Live() int {
 }
 
 // Sleep blocks the caller for d of simulated time (durable).
+//
+//go:norace
 func (s *Sim) Sleep(d time.Duration) {
 	s.mu.Lock()
 	dr := s.draining
@@ -240,6 +302,8 @@ func (s *Sim) Sleep(d time.Duration) {
 }
 
 // Drain switches to cleanup mode: parks return immediately.
+//
+//go:norace
 func (s *Sim) Drain() {
 	s.mu.Lock()
 	s.draining = true
@@ -247,12 +311,16 @@ func (s *Sim) Drain() {
 	s.parked = nil
 	for _, e := range ps {
 		e.in = false
+		raceOff()
 		e.ch <- 0
+		raceOn()
 	}
 	s.mu.Unlock()
 }
 
 // Draining reports cleanup mode.
+//
+//go:norace
 func (s *Sim) Draining() bool {
 	s.mu.Lock()
 	defer s.mu.Unlock()
@@ -261,10 +329,14 @@ func (s *Sim) Draining() bool {
 
 // Loop is the scheduler; call it from the bubble's root goroutine. It returns
 // when all actors have finished, or a bound was exceeded (Aborted set).
+//
+//go:norace
 func (s *Sim) Loop() {
 	var elig []*Entry
 	for {
+		raceOff()
 		synctest.Wait()
+		raceOn()
 		if s.Quiesce != nil {
 			s.Quiesce()
 		}
@@ -289,10 +361,12 @@ func (s *Sim) Loop() {
 				s.Aborted = "sim-time"
 				return
 			}
+			raceOff()
 			select {
 			case <-s.wake:
 			case <-time.After(time.Second):
 			}
+			raceOn()
 			continue
 		}
 		if s.step >= s.MaxSteps {
@@ -331,11 +405,15 @@ func (s *Sim) Loop() {
 		s.last = pick.ID
 		s.logLocked(fmt.Sprintf("%d %d %s", s.step, time.Since(s.Start).Microseconds(), pick.ID))
 		s.mu.Unlock()
+		raceOff()
 		pick.ch <- 0
+		raceOn()
 	}
 }
 
 // ParkedIDs lists parked entries (diagnostics).
+//
+//go:norace
 func (s *Sim) ParkedIDs() []string {
 	s.mu.Lock()
 	defer s.mu.Unlock()
